@@ -1019,7 +1019,7 @@ class unyt_array(np.ndarray):
         else:
             v = self.in_units(units, equivalence=equivalence, **kwargs).value
         if isinstance(self, unyt_quantity):
-            return float(v)
+            return complex(v) if np.iscomplexobj(v) else float(v)
         else:
             return v
 
